@@ -83,7 +83,8 @@ def _gql_files(path):
     return [path] if os.path.exists(path) else []
 
 
-BAD_NAMES = {"nonident": "a-b", "empty": "", "keyword": "class", "digit": "1abc", "space": "my name", "kw_soft_ok": "match"}
+BAD_NAMES = {"nonident": "a-b", "empty": "", "keyword": "class", "digit": "1abc", "space": "my name", "kw_soft_ok": "match",
+             "trailing_newline": "name_x\n", "leading_space": " name_x", "dotted": "a.b", "nonascii_ok": "Kli\u00ebnt_x"}
 NAME_SETTINGS_CLIENT = ["target_package_name", "client_name", "client_file_name", "enums_module_name",
                         "input_types_module_name", "fragments_module_name"]
 NAME_SETTINGS_SCHEMA = ["schema_variable_name", "type_map_variable_name"]
@@ -117,6 +118,49 @@ def f_no_schema_source(c):
 def f_schema_path_missing(c):
     c.cfg["schema_path"] = "no/such/schema.graphql"
     c.expect = ("invalid", ("InvalidConfiguration",), "no/such/schema.graphql")
+
+
+def _home_with_copy(c, rel_src, rel_in_home):
+    """A $HOME for the generating process that does hold what a '~/...' path would name if '~' were expanded."""
+    home = os.path.join(c.root, "zz_home")
+    src = os.path.join(c.root, rel_src)
+    dst = os.path.join(home, rel_in_home)
+    os.makedirs(os.path.dirname(dst), exist_ok=True)
+    if os.path.isdir(src):
+        shutil.copytree(src, dst, dirs_exist_ok=True)
+    elif os.path.exists(src):
+        shutil.copyfile(src, dst)
+    else:
+        return False
+    c.env["HOME"] = home
+    return True
+
+
+def f_tilde_path(setting):
+    """Paths are taken literally ('~' is not expanded anywhere in the tool): '~/...' names nothing in the project, so the
+    configuration is rejected - even when $HOME happens to hold such a file."""
+    def fn(c: Ctx):
+        cur = c.cfg.get(setting)
+        if setting == "files_to_include":
+            if not cur:
+                return "skip"
+            rel = cur[0]
+        else:
+            rel = cur
+        if not rel or not isinstance(rel, str) or os.path.isabs(rel):
+            return "skip"
+        if not _home_with_copy(c, rel, os.path.join("proj", rel)):
+            return "skip"
+        tilde = "~/proj/" + rel
+        if setting == "files_to_include":
+            c.cfg[setting] = [tilde] + list(cur[1:])
+        else:
+            c.cfg[setting] = tilde
+        c.expect = ("invalid", ("InvalidConfiguration",), tilde)
+        c.note = "%s=%r with HOME holding that path" % (setting, tilde)
+    if setting in ("queries_path", "base_client_file_path", "files_to_include"):
+        fn.applies = "client"
+    return fn
 
 
 def f_queries_path_missing(c):
@@ -687,6 +731,8 @@ FAULTS: Dict[str, Callable] = {
     "config:target_file_bad_suffix": f_target_file_bad_suffix, "config:target_file_no_suffix": f_target_file_no_suffix,
     "config:section_missing": f_section_missing, "config:config_absent": f_config_absent,
 }
+for _s in ("schema_path", "queries_path", "files_to_include"):
+    FAULTS["config:tilde:%s" % _s] = f_tilde_path(_s)
 for _s in NAME_SETTINGS_CLIENT + NAME_SETTINGS_SCHEMA:
     for _b in BAD_NAMES:
         FAULTS["config:name:%s:%s" % (_s, _b)] = f_name(_s, _b)
